@@ -233,7 +233,13 @@ pub fn run_scen(s: &Scen, seed: u64, strategy: Strategy) -> Outcome {
             match kind {
               Kind::Behavior => {
                 let mut b = beh.clone();
-                Observer::<V, E>::next(&mut b, V::I(v))
+                if counter % 2 == 0 {
+                  // every other item goes through next_by (a function that ignores
+                  // the current value, so that the emitted item stays identifiable)
+                  Behavior::<V, E>::next_by(&mut b, move |_| V::I(v))
+                } else {
+                  Observer::<V, E>::next(&mut b, V::I(v))
+                }
               }
               _ => hot[k].clone().next(V::I(v)),
             }
@@ -1664,7 +1670,13 @@ pub fn run_scen_free_mode(s: &Scen, mode: u8, seed: u64) -> Outcome {
             match kind {
               Kind::Behavior => {
                 let mut b = beh.clone();
-                Observer::<V, E>::next(&mut b, V::I(v))
+                if counter % 2 == 0 {
+                  // every other item goes through next_by (a function that ignores
+                  // the current value, so that the emitted item stays identifiable)
+                  Behavior::<V, E>::next_by(&mut b, move |_| V::I(v))
+                } else {
+                  Observer::<V, E>::next(&mut b, V::I(v))
+                }
               }
               _ => hot[k].clone().next(V::I(v)),
             }
